@@ -24,7 +24,9 @@ EXHAUSTIVE_NOTE = ("every row of isotope_mass (2939), element_mass (84), isotope
                    "parse_uncertainty part is a generated search, not exhaustive")
 RULE = ("sweep: one case per (configuration, clause, Z, A) where clause is one of isotope mass+uncertainty, "
         "element weight+uncertainty, abundance, abundance sum, weighted mass vs weight, element density, isotope "
-        "density, number density/interatomic distance; oracle = independent ast/regex/decimal reading of the table "
+        "density, number density/interatomic distance, the same quantities through the module-level functions "
+        "mass.mass/abundance and density.density/number_density/interatomic_distance called directly with the "
+        "element or isotope, and an ion / isotope-ion sample per element (attribute route); oracle = independent ast/regex/decimal reading of the table "
         "text in the source files; every row is non-trivial and distinct by (configuration, clause, Z, A). "
         "notation: Hypothesis draws a string in one of the documented notations val, val(unc), val(unc)#, "
         "val(u.nc), [nominal], [low,high], '' with digit counts drawn freely; oracle = decimal reading; "
@@ -40,6 +42,14 @@ ASSUMPTIONS = [
     "density rel 1e-13; n*d^3 = 1e24 rel 1e-12",
     "N_A is the literal avogadro_number of constants.py; the neutron (element 0, isotope 1) has the neutron_mass "
     "of constants.py, abundance 100 and unknown density",
+    "function route: mass.mass(x), mass.abundance(isotope), density.density(x), density.number_density(x), "
+    "density.interatomic_distance(x) for every element and isotope must agree with the attribute route (rel 1e-13) and "
+    "with the oracle: n = rho*N_A/m with rho and m of that nuclide (isotope rho = element rho * m_iso/m_el, i.e. the "
+    "isotope keeps the element's interatomic spacing), n*d^3 = 1e24, d(isotope) = d(element) rel 1e-13, None when the "
+    "density is unknown. mass.abundance() is documented for isotopes only and is not called with elements",
+    "ions: the module-level functions document Element/Isotope arguments only (density.density(ion), mass.mass(ion) "
+    "ignore the charge on the unchanged tree), so for the ion / isotope-ion sample only the attribute route is judged: "
+    "number_density and interatomic_distance equal the parent's",
     "the uncertainty of abundances (_abundance_unc) and the density caveat strings are not part of the property "
     "and are not judged",
     "uncertainty-notation strings are generated without exponents, blanks, or a leading/trailing bare point "
@@ -312,6 +322,73 @@ def check_row(ctx, case):
                     % (el.symbol, a, got, exp_el, mi, me, want), case)
         _check_nd(iso, want, mi, case)
         return
+    if what == "functions":
+        # the module-level functions named by the property, called directly with the element / isotope
+        from periodictable import density as dmod, mass as mmod
+        atom = el[a] if a else el
+        label = "%s-%d" % (el.symbol, a) if a else el.symbol
+        routes = [("mass", mmod.mass, "mass"), ("density", dmod.density, "density"),
+                  ("number_density", dmod.number_density, "number_density"),
+                  ("interatomic_distance", dmod.interatomic_distance, "interatomic_distance")]
+        if a:
+            routes.append(("abundance", mmod.abundance, "abundance"))
+        served = {}
+        for name, fn, attr in routes:
+            f = fn(atom)                       # must not raise
+            g = getattr(atom, attr)
+            served[name] = f
+            if f is None and g is None:
+                continue
+            if not (_num(f) and _num(g) and close(f, g, 1e-13)):
+                raise V("function-route:%s:differs-from-attribute" % name,
+                        "periodictable.%s.%s(%s) = %r but %s.%s = %r"
+                        % ("mass" if fn.__module__.endswith("mass") else "density", name, label, f, label, attr, g), case)
+        # oracle for the function values
+        if z == 0:
+            rho = None
+            m = O["mn"]
+        else:
+            rho_el = O["dens"].get(el.symbol)
+            me = O["weight"][z]["mass"]
+            m = O["iso"][(z, a)]["mass"] if a else me
+            rho = None if rho_el is None else (rho_el * m / me)     # an isotope keeps the element's spacing
+        if not same(served["mass"], m):
+            raise V("function-route:mass:value", "mass.mass(%s) = %r, table says %s" % (label, served["mass"], m), case)
+        n, d = served["number_density"], served["interatomic_distance"]
+        if rho is None:
+            if served["density"] is not None or n is not None or d is not None:
+                raise V("function-route:unknown-served", "%s density unknown but density() = %r number_density() = %r "
+                        "interatomic_distance() = %r" % (label, served["density"], n, d), case)
+            return
+        if not close(served["density"], rho, 1e-13):
+            raise V("function-route:density:value", "density.density(%s) = %r, expected %.17g" % (label, served["density"], rho), case)
+        want = rho * O["NA"] / m
+        if not close(n, want, 1e-13):
+            raise V("function-route:number_density:value", "density.number_density(%s) = %r, rho*N_A/m = %.17g "
+                    "(rho = %.17g, m = %s of that nuclide)" % (label, n, want, rho, m), case)
+        if not (_num(d) and close(n * d ** 3, 1e24, 1e-12)):
+            raise V("function-route:interatomic_distance", "density functions for %s: n*d^3 = %r (n=%r d=%r)"
+                    % (label, (n * d ** 3) if _num(d) else None, n, d), case)
+        if a:
+            d_el = dmod.interatomic_distance(el)
+            if not (_num(d_el) and close(d, d_el, 1e-13)):
+                raise V("function-route:interatomic_distance:isotope-spacing", "density.interatomic_distance(%s) = %r "
+                        "but the element's is %r (an isotope keeps the element's spacing)" % (label, d, d_el), case)
+        return
+
+    if what == "ion-sample":
+        # attribute route only: the module-level functions are documented for elements and isotopes
+        c = case["charge"]
+        parent = el[a] if a else el
+        ion = parent.ion[c]
+        label = "%s%s{%+d}" % (el.symbol, "-%d" % a if a else "", c)
+        for attr in ("number_density", "interatomic_distance"):
+            f, g = getattr(ion, attr), getattr(parent, attr)
+            if f is None and g is None:
+                continue
+            if not (_num(f) and _num(g) and close(f, g, 1e-13)):
+                raise V("ion-sample:" + attr, "%s.%s = %r but its parent serves %r" % (label, attr, f, g), case)
+        return
     raise ValueError(what)
 
 
@@ -331,9 +408,9 @@ def sweep(ctx, config):
     O = oracle()
     table = env(config)
 
-    def run(check, z, a, cls):
-        case = {"kind": "row", "config": config, "check": check, "z": z, "a": a}
-        ctx.case((config, check, z, a), nontrivial=True,
+    def run(check, z, a, cls, **extra):
+        case = dict({"kind": "row", "config": config, "check": check, "z": z, "a": a}, **extra)
+        ctx.case((config, check, z, a) + tuple(sorted(extra.items())), nontrivial=True,
                  sample={"config": config, "check": check, "nuclide": "%d-%s%s" % (z, table[z].symbol, "-%d" % a if a else "")},
                  cls=["config:" + config] + cls)
         ctx.check(check_row, case)
@@ -352,7 +429,15 @@ def sweep(ctx, config):
             run("weight", z, 0, ["weight:" + O["weight"][z]["src"]])
         else:
             run("weight", 0, 0, ["weight:neutron"])
-        run("density", z, 0, ["density:" + ("unknown" if O["dens"].get(el.symbol) is None else "known")])
+        known = "unknown" if O["dens"].get(el.symbol) is None else "known"
+        run("density", z, 0, ["density:" + known])
+        run("functions", z, 0, ["function-route:element:density-" + known])
+        if z and el.ions:
+            c = list(el.ions)[0]
+            run("ion-sample", z, 0, ["ion-sample:element-ion"], charge=c)
+            isos = [k for k in el.isotopes if (z, k) in O["iso"]]
+            if isos:
+                run("ion-sample", z, isos[len(isos) // 2], ["ion-sample:isotope-ion"], charge=c)
         listed = O["abund"].get(z, {})
         for a in list(el.isotopes):
             if (z, a) not in O["iso"]:
@@ -367,7 +452,8 @@ def sweep(ctx, config):
                 k = "abundance:element-not-in-composition-table"
             run("abundance", z, a, [k])
             if z:
-                run("isotope-density", z, a, ["isotope-density:" + ("unknown" if O["dens"].get(el.symbol) is None else "known")])
+                run("isotope-density", z, a, ["isotope-density:" + known])
+                run("functions", z, a, ["function-route:isotope:density-" + known])
         if z in O["abund"]:
             run("abundance-sum", z, 0, ["abundance-sum+weighted-mass"])
     # abundance rows whose isotope has no mass row are reported by the abundance clause
